@@ -341,6 +341,43 @@ fn run(doc: &str, t: Target, o: Opt, seq: bool, w: &mut Option<String>) -> Got {
     }
 }
 
+#[derive(serde::Deserialize)]
+enum Wr<T> {
+    W(T),
+}
+fn de_payload<T: DeserializeOwned + ToVal>(doc: &str, o: Opt) -> Got {
+    match serde_saphyr::from_str_with_options::<Wr<T>>(doc, lib_options(o)) {
+        Ok(Wr::W(v)) => Got::Ok(v.to_val()),
+        Err(_) => Got::Err,
+    }
+}
+fn run_payload(doc: &str, t: Target, o: Opt) -> Got {
+    match t {
+        Target::I8 => de_payload::<i8>(doc, o),
+        Target::I16 => de_payload::<i16>(doc, o),
+        Target::I32 => de_payload::<i32>(doc, o),
+        Target::I64 => de_payload::<i64>(doc, o),
+        Target::I128 => de_payload::<i128>(doc, o),
+        Target::U8 => de_payload::<u8>(doc, o),
+        Target::U16 => de_payload::<u16>(doc, o),
+        Target::U32 => de_payload::<u32>(doc, o),
+        Target::U64 => de_payload::<u64>(doc, o),
+        Target::U128 => de_payload::<u128>(doc, o),
+        Target::F32 => de_payload::<f32>(doc, o),
+        Target::F64 => de_payload::<f64>(doc, o),
+        Target::Bool => de_payload::<bool>(doc, o),
+        Target::Char => de_payload::<char>(doc, o),
+        Target::Str => de_payload::<String>(doc, o),
+        Target::OptI64 => de_payload::<Option<i64>>(doc, o),
+        Target::OptStr => de_payload::<Option<String>>(doc, o),
+        Target::Unit => de_payload::<()>(doc, o),
+        Target::Bytes => de_payload::<serde_bytes::ByteBuf>(doc, o),
+        Target::VecU8 => de_payload::<VecU8>(doc, o),
+        Target::OptVecU8 => de_payload::<Option<VecU8>>(doc, o),
+        Target::Untyped => de_payload::<U>(doc, o),
+    }
+}
+
 fn show(g: &Got, doc: &str, t: Target, o: Opt, seq: bool) -> String {
     match g {
         Got::Err => {
@@ -494,6 +531,25 @@ fn check_case(c: &Case) -> Outcome {
                         show(&g, &doc_v, c.target, o, false)
                     ));
                 }
+            }
+        }
+    }
+    // 2c. enum payload position: the payload of `!W scalar` is the scalar without the tag, read by
+    // the payload type exactly like the `scalar` of `W: scalar` (only an untagged scalar can
+    // stand behind the variant tag)
+    if c.tag == Tag::None && !(c.style == Style::Plain && c.text.is_empty()) {
+        let n = node(c);
+        let tagged = format!("!W {n}");
+        let mapped = format!("W: {n}");
+        for ob in 0..16u8 {
+            let o = Opt::from_bits(ob);
+            let (a, b) = (run_payload(&tagged, c.target, o), run_payload(&mapped, c.target, o));
+            if a != b {
+                return Outcome::Fail(format!(
+                    "enum payload: {head}: text {:?} options [{}]: {tagged:?} gives {a:?}, {mapped:?} gives {b:?}",
+                    c.text,
+                    o.name()
+                ));
             }
         }
     }
